@@ -60,7 +60,7 @@ CLAIMED["C19"] = dict(
 CLAIMED["C04"] = dict(
     technique="symbolic execution of the real SB2.1 builder/parser (symx) over ideal-cipher/UF crypto stubs + z3 QF_BV; "
               "oracle = independent ROM decoder written over the exported symbolic bytes",
-    note="Out of the claim: real AES/HMAC/RSA/SHA (stubbed), SB2.0 unsigned images, OTFAD key-blob commands, "
+    note="Out of the claim: real AES/HMAC/RSA/SHA (stubbed), SB2.0 signed images (certificate section; unsigned SB2.0 is decided), OTFAD key-blob commands, "
          "image_blocks/first_boot_tag_block with the SHA flag, counter wrap (refused; C09).",
     ref="DESIGN.md section 3 C04")
 
@@ -157,8 +157,8 @@ CLAIMED["C12"] = dict(
               "register of the area a solver variable (z3 QF_BV): fixed export size, register bytes at their offsets, "
               "parse(export) and configuration round trips as byte equalities, computed fields as bit-vector identities",
     note="Out of the claim: the template / JSON-schema clause of C12 (YAML and jsonschema text processing cannot be "
-         "encoded - seeded change C12_1 lives there and is not detected), fuse maps, memcfg option words, ROTKH/seal with "
-         "real keys; two recorded findings (IFR CMAC table register file).",
+         "encoded - seeded change C12_1 lives there and is not detected), fuse maps, memcfg option words, seal with "
+         "real keys (ROTKH from stub root keys is decided, assuming the hash does not begin with 128 zero bits); two recorded findings (IFR CMAC table register file).",
     ref="DESIGN.md section 3 C12")
 
 CLAIMED["C06"] = dict(
